@@ -109,7 +109,7 @@ Example C15_full_ln_example :
 Proof. split; [vm_compute; reflexivity|]. split; [vm_compute; reflexivity|]. eexists. split; vm_compute; reflexivity. Qed.
 
 (* ====================================================================== 4. dominant bpm, scroll speed, SV normalisation *)
-From RV Require Import Algo.DominantBpm Algo.ScrollSpeed Algo.AnalysisSpec Proofs.PermAnalysisProofs.
+From RV Require Import Algo.DominantBpm Algo.ScrollSpeed Algo.AnalysisSpec Algo.PermDomain Proofs.PermAnalysisProofs.
 Open Scope Q_scope.
 
 (* the same VALUE whatever the row order of the tempo, SV and note lists (no two tempo points at one time) *)
@@ -137,12 +137,21 @@ Theorem C15_scroll_speed_perm_needs_agree_refuted :
                   /\ scroll_speed c' ov <> scroll_speed c ov.
 Proof. exact scroll_speed_perm_needs_agree_refuted. Qed.
 
+(* the same three statements on the boolean domain that the correspondence runner evaluates on every generated case
+   (Algo/PermDomain.v: dom_dominant = rows permuted + distinct tempo times; dom_scroll = that + reduced offsets + coincident SVs agree) *)
+Theorem C15_dominant_bpm_perm_b : forall c c', dom_dominant c c' = true -> dominant_bpm c' = dominant_bpm c.
+Proof. exact dominant_bpm_perm_b. Qed.
+Theorem C15_sv_normalize_perm_b : forall c c' ov, dom_dominant c c' = true -> opt_perm (sv_normalize c ov) (sv_normalize c' ov).
+Proof. exact sv_normalize_perm_b. Qed.
+Theorem C15_scroll_speed_perm_b : forall c c' ov, dom_scroll c c' = true -> scroll_speed c' ov = scroll_speed c ov.
+Proof. exact scroll_speed_perm_b. Qed.
+
 Example C15_analysis_example :
   let c  := mkChart [(1000, 240); (0, 120); (2500, 60); (2000, 120); (9000, 480)]
                     (Some [(-500, 2); (1000, 1 # 2); (1500, 3); (1500, 3); (9500, 4)]) [0; 2750; 4000] in
   let c' := mkChart [(9000, 480); (2000, 120); (0, 120); (2500, 60); (1000, 240)]
                     (Some [(1500, 3); (9500, 4); (1000, 1 # 2); (-500, 2); (1500, 3)]) [4000; 0; 2750] in
-  distinct_times (tempo_times c) && canon_offsets c && svs_agreeb c && wf_chart c = true
+  dom_scroll c c' && wf_chart c = true
   /\ dominant_bpm c' = dominant_bpm c /\ scroll_speed c' None = scroll_speed c None /\ dominant_bpm c = Some 60.
 Proof. vm_compute. repeat split; reflexivity. Qed.
 
